@@ -1667,8 +1667,9 @@ func (x *Decimal) BitsExp() ([]Word, int32) {
 
 // SetBitsExp provides raw (checked, yet fast) access to z by setting it to a
 // positive number with mantissa mant (interpreted as a little-endian Word
-// slice) and exponent exp, returning z rounded to z.Prec(). The result and mant
-// share the same underlying array. If mant is not normalized, SetBitsExp will
+// slice) and exponent exp, returning z rounded to z.Prec(). If z's precision is
+// 0, it is changed to max(number of digits in mant, DefaultDecimalPrec). The
+// result and mant share the same underlying array. If mant is not normalized, SetBitsExp will
 // normalize it and adjust the exponent accordingly.
 //
 // A mantissa is normalized when its most significant Word has a non-zero most
@@ -1685,6 +1686,15 @@ func (z *Decimal) SetBitsExp(mant []Word, exp int64) *Decimal {
 	z.mant = dec(mant).norm()
 	z.neg = false
 	if len(z.mant) > 0 {
+		if z.prec == 0 {
+			// As for SetInt: make room for all the digits provided (a finite
+			// Decimal cannot have a zero precision).
+			digits := int64(len(z.mant))*_DW - int64(nlz10(z.mant[len(z.mant)-1]))
+			if digits > MaxPrec {
+				digits = MaxPrec
+			}
+			z.prec = umax32(uint32(digits), DefaultDecimalPrec)
+		}
 		z.setExpAndRound(exp-dnorm(z.mant)-int64(len(mant)-len(z.mant))*_DW, 0)
 	} else {
 		z.acc = Exact
